@@ -138,6 +138,16 @@ pub fn generate(g: &mut Gen, thorough: bool) {
                 [lon.to_radians(), lat.to_radians(), g.rng.uniform(0.0, 100.0), g.rng.uniform(2005.0, 2025.0)]
             })
             .collect();
+        if !spain {
+            let grids = super::shipped_grids_of(def);
+            let input: Vec<[f64; 4]> = if def.starts_with("deformation") {
+                pts.iter().map(|p| { let (s, c) = p[1].sin_cos(); let (sl, cl) = p[0].sin_cos(); [6.4e6 * c * cl, 6.4e6 * c * sl, 6.38e6 * s, p[3]] }).collect()
+            } else {
+                pts.clone()
+            };
+            g.push(super::opg_line(&grids, &format!("{def} | {def} inv"), "apply", "F", &data_of(&input)), "model-grid-roundtrip", true);
+            g.push(super::opg_line(&grids, def, "apply", "I", &data_of(&input)), "model-grid-inverse", true);
+        }
         if def.starts_with("deformation") {
             g.push(format!("S_C01D\t{}\t{}", escape(def), data_of(&pts)), "oracle-deformation", true);
         } else {
